@@ -108,6 +108,21 @@ func c13Gen(r *rand.Rand, tier string) []spec.Case {
 			}
 		}
 	}
+	// a RunnerFunc client with a SecureConfig: go-plugin has no file to hash, whatever the checksum
+	for _, h := range hashes {
+		for _, v := range []string{"exact", "other", "zeros"} {
+			seed := int64(r.Intn(1000))
+			f := file{"script", 64}
+			sum := c13Digest(h, spec.C13File(f.kind, f.size, seed))
+			switch v {
+			case "other":
+				sum = c13Digest(h, []byte("something else"))
+			case "zeros":
+				sum = make([]byte, len(sum))
+			}
+			out = append(out, spec.Case{Kind: "runner", P: spec.MustJSON(spec.C13Case{FileKind: f.kind, FileSize: f.size, FileSeed: seed, Hash: h, Variant: "runner:" + v, Checksum: sum, ViaRunner: true})})
+		}
+	}
 	// a missing binary
 	out = append(out, spec.Case{Kind: "missing", P: spec.MustJSON(spec.C13Case{FileKind: "script", FileSize: 64, Hash: "sha256", Variant: "missing", Checksum: make([]byte, 32), Missing: true})})
 	return out
@@ -130,6 +145,16 @@ func c13Judge(c spec.Case, evs []spec.Event, d *Death) CaseResult {
 		res.Violations = append(res.Violations, Violation{Key: "C13:" + key, Msg: fmt.Sprintf("%s [variant=%s hash=%s file=%s/%d checksumLen=%d] err=%q", msg, p.Variant, p.Hash, p.FileKind, p.FileSize, len(p.Checksum), trunc(o.Err, 150))})
 	}
 	content := spec.C13File(p.FileKind, p.FileSize, p.FileSeed)
+	if p.ViaRunner {
+		res.Counters["runner_cases"]++
+		res.Sample = map[string]any{"variant": p.Variant, "runner_calls": o.RunnerCalls, "launched": o.Marker, "err": trunc(o.Err, 80)}
+		if o.RunnerCalls > 0 || o.Marker {
+			viol("runner-launched-unverified", fmt.Sprintf("with a RunnerFunc and a SecureConfig there is no file whose hash could equal the checksum, yet the RunnerFunc was invoked %d time(s) (launched=%v)", o.RunnerCalls, o.Marker))
+		} else if o.Err == "" {
+			viol("runner-start-succeeded", "Start succeeded with a RunnerFunc and a SecureConfig although nothing was verified")
+		}
+		return res
+	}
 	if len(p.Steps) > 0 {
 		res.Class = fmt.Sprintf("history/%s/%v/reset=%v", p.Hash, p.Steps, p.CallerReset)
 		if len(o.Steps) != len(p.Steps) {
